@@ -4,6 +4,8 @@ import vlib
 
 FAMS_TIES = "grid:3:3,grid:3:4,grid:4:4,cube:3,cube:4,Kb:3:3,Kb:4:4,petersen,wheel:6,prism:5,torus:3:3,K:6"
 
+FAMS_BIG = "grid:6:6,cube:6,grid:5:8,torus:6:6,Kb:20:20,grid:7:10,cube:7,torus:8:9,grid:4:8,cube:5,subgrid:4:4,brick:6:8"
+
 SPEC = {
     "C12": dict(comp="sptree",
                 rule="every labelled graph of G(n) x every weighting over the alphabet (unit weights = maximal ties) and named tie-heavy families; one SPTree per "
@@ -14,7 +16,8 @@ SPEC = {
                        ("G(4) x A3", [["--n", 4, "--alpha", "A3"]]), ("G(5) x A3", [["--n", 5, "--alpha", "A3"]]),
                        ("reversed / alternating edge orientation: G(4) x A3, G(5) x A2", [["--n", 4, "--alpha", "A3", "--orient", 1], ["--n", 5, "--alpha", "A2", "--orient", 1], ["--n", 5, "--alpha", "A2", "--orient", 2]]),
                        ("blob grammar K=3,T=2 x patterns M2, M3", [["--grammar", "blobs:3:2", "--alpha", "M2"], ["--grammar", "blobs:3:2", "--alpha", "M3"]]),
-                       ("tie-heavy families x U", [["--families", FAMS_TIES, "--alpha", "U"]])],
+                       ("tie-heavy families x U", [["--families", FAMS_TIES, "--alpha", "U"]]),
+                       ("tie-heavy families with 33..64 and more than 64 vertices x U, M3", [["--families", FAMS_BIG, "--alpha", a] for a in ("U", "M3")])],
                 thorough=[("G(6) x U", [["--n", 6, "--alpha", "U"]]),
                           ("G(5) x D", [["--n", 5, "--alpha", "D"]]),
                           ("G(7) x U", [["--n", 7, "--alpha", "U"]]),
@@ -23,9 +26,10 @@ SPEC = {
     "C13": dict(comp="fvs",
                 rule="every labelled graph of G(n) (no weights involved) and named families; oracle = outputs are distinct vertices, graph minus output is acyclic "
                      "(union-find), nothing emitted for forests. distinct_nontrivial = graphs containing a cycle",
-                quick=[("G(0..6)", [["--n", n] for n in range(0, 7)]), ("G(6) reversed edge orientation", [["--n", 6, "--orient", 1]]), ("families", [["--families", FAMS_TIES + ",grid:6:6,cube:5,K:9,wheel:12"]]),
-                       ("blob grammar K=3,T=3 (hubs with pendant pieces, up to 30 vertices)", [["--grammar", "blobs:3:3"]])],
-                thorough=[("G(7)", [["--n", 7]]), ("G(8) with at most 11 edges", [["--n", 8, "--max-m", 11]]), ("blob grammar K=4,T=3", [["--grammar", "blobs:4:3"]])]),
+                quick=[("G(0..7)", [["--n", n] for n in range(0, 8)]), ("G(6), G(7) reversed edge orientation", [["--n", 6, "--orient", 1], ["--n", 7, "--orient", 1]]), ("families", [["--families", FAMS_TIES + ",grid:6:6,cube:5,K:9,wheel:12," + FAMS_BIG]]),
+                       ("blob grammar K=3,T=3 (hubs with pendant pieces, up to 30 vertices)", [["--grammar", "blobs:3:3"]]),
+                       ("every graph on 9 vertices with at most 6 edges", [["--n", 9, "--sparse", 6]])],
+                thorough=[("G(8) (all 2^28 labelled graphs)", [["--n", 8]]), ("every graph on 9 / 10 / 12 vertices with at most 8 / 8 / 6 edges", [["--n", 9, "--sparse", 8], ["--n", 10, "--sparse", 8], ["--n", 12, "--sparse", 6]]), ("blob grammar K=4,T=3", [["--grammar", "blobs:4:3"]])]),
     "C14": dict(comp="collections",
                 rule="every labelled graph of G(n) x every weighting: Horton, FVS and ISO builders are called directly; every candidate is checked to be two root "
                      "paths meeting only at the root plus a non-tree edge with the recorded weight; FVS and ISO (root, edge) pairs must be Horton pairs; greedy by "
@@ -44,9 +48,10 @@ SPEC = {
                 rule="every labelled graph of G(n), and for n <= 4 (thorough: n <= 5 with m <= 7) every edge insertion order; each index is judged as constructed, copy-constructed, assigned over another graph's index and self-assigned; oracle = mutually inverse bijections onto 0..m-1, "
                      "component count and dimension by union-find, is_on_forest iff index >= dimension, forest edges acyclic and n-c many. "
                      "distinct_nontrivial = distinct (graph, insertion order) with at least one edge",
-                quick=[("G(0..6)", [["--n", n] for n in range(0, 7)]), ("G(6) reversed / alternating edge orientation", [["--n", 6, "--orient", 1], ["--n", 6, "--orient", 2]]), ("G(0..4) x all edge insertion orders", [["--n", n, "--edge-orders"] for n in range(0, 5)]),
-                       ("families", [["--families", FAMS_TIES + ",grid:6:6,cube:5,K:9"]]), ("blob grammar K=3,T=3 (many components, isolated vertices)", [["--grammar", "blobs:3:3"]])],
-                thorough=[("G(7)", [["--n", 7]]), ("G(5), m <= 7, all edge insertion orders", [["--n", 5, "--edge-orders", "--max-m", 7]])]),
+                quick=[("G(0..7)", [["--n", n] for n in range(0, 8)]), ("G(6) reversed / alternating, G(7) alternating edge orientation", [["--n", 6, "--orient", 1], ["--n", 6, "--orient", 2], ["--n", 7, "--orient", 2]]), ("G(0..4) x all edge insertion orders", [["--n", n, "--edge-orders"] for n in range(0, 5)]),
+                       ("families", [["--families", FAMS_TIES + ",grid:6:6,cube:5,K:9," + FAMS_BIG]]), ("blob grammar K=3,T=3 (many components, isolated vertices)", [["--grammar", "blobs:3:3"]]),
+                       ("every graph on 10 / 12 vertices with at most 5 / 4 edges (n > m + 2, isolated vertices)", [["--n", 10, "--sparse", 5], ["--n", 12, "--sparse", 4]])],
+                thorough=[("G(8) (all 2^28 labelled graphs)", [["--n", 8]]), ("every graph on 10 / 14 vertices with at most 7 / 5 edges (sparse, many components and isolated vertices)", [["--n", 10, "--sparse", 7], ["--n", 14, "--sparse", 5]]), ("G(5), m <= 7, all edge insertion orders", [["--n", 5, "--edge-orders", "--max-m", 7]])]),
 }
 
 
